@@ -732,9 +732,17 @@ fn render_docs(ep: &EnergyPerformance, p: i32, pm: i32) -> Value {
     };
     let mut doc = json!({"ok": true});
     match catch_unwind(AssertUnwindSafe(|| ep.to_xml())) {
-        Ok(x) => doc["xml"] = Value::Array(lex::lex_xml(&x)),
+        Ok(x) => {
+            let toks = lex::lex_xml(&x);
+            doc["xmlrecs"] = Value::Array(lex::xml_records(&toks));
+            doc["xml"] = Value::Array(toks);
+        }
         Err(_) => return json!({"ok": false, "err": "Panic", "stage": "xml"}),
     }
+    // the factors of the result (derived cogeneration factors included), in thousandths, for the XML / plain clauses
+    doc["facs"] = Value::Array(ep.wfactors.wdata.iter().map(|f| json!({"cr": f.carrier.to_string(), "src": f.source.to_string(),
+        "dest": f.dest.to_string(), "step": f.step.to_string(),
+        "m": [(f.ren as f64 * 1000.0).round() as i64, (f.nren as f64 * 1000.0).round() as i64, (f.co2 as f64 * 1000.0).round() as i64]})).collect());
     match catch_unwind(AssertUnwindSafe(|| ep.to_plain())) {
         Ok(x) => doc["plain"] = Value::Array(lex::lex_plain(&x)),
         Err(_) => return json!({"ok": false, "err": "Panic", "stage": "plain"}),
